@@ -243,7 +243,15 @@ def build_csr(h, node):
             def elaborate(self, platform):
                 return Module()
         mm = MemoryMap(addr_width=node["aw"], data_width=node["dw"], alignment=node["al"])
-        for op in node["ops"]:
+        # in a third of the multiplexers the second half of the registers joins the map after the Multiplexer
+        # object exists (its constructor does not freeze the map; the map is frozen when a decoder or bridge
+        # takes it, later): what is elaborated is the map as it stands at elaboration
+        nops = len(node["ops"])
+        late = nops // 2 if (nops * 5 + node["aw"] + node["dw"]) % 3 == 0 else 0
+        mux = None
+        for k, op in enumerate(node["ops"]):
+            if late and k == nops - late:
+                mux = csr.Multiplexer(mm, shadow_overlaps=node["ov"])
             try:
                 if op[0] == "align":
                     mm.align_to(op[1])
@@ -254,7 +262,8 @@ def build_csr(h, node):
                     h.mock.append(r)
             except ValueError:
                 pass
-        mux = csr.Multiplexer(mm, shadow_overlaps=node["ov"])
+        if mux is None:
+            mux = csr.Multiplexer(mm, shadow_overlaps=node["ov"])
         h.mods.append(mux)
         h.kind[id(mm)] = ("mux", node["ov"])
         return mux.bus
@@ -519,6 +528,10 @@ def run_impl(case):
     top.d.sync += tick.eq(~tick)
 
     # ---- memory-map observations (pure API) ----
+    # queries that stop early (a search that found what it wanted, a generator dropped half-way) are queries
+    # like any other: what the complete ones below return must not depend on them
+    it = root.all_resources(); next(it, None); del it
+    any(True for _ in root.resources()); any(True for _ in root.windows()); any(True for _ in root.window_patterns())
     infos = list(root.all_resources())
     mapobs_infos = [[cf.res_id[id(i.resource)], cf.names.path(i.path), i.start, i.end, i.width] for i in infos]
     naddr = 1 << root.addr_width
@@ -750,6 +763,14 @@ def oracle(case, obs):
             if 0 <= a < len(decode) and decode[a] != [rid]:
                 bad(f"address {a}", f"all_resources() reports resource {rid} at [{s},{e}) but decode_address({a}) gives {decode[a]}")
                 break
+    listed = {}
+    for rid, s_, e_ in aux["infos"]:
+        listed.setdefault(rid, []).append((s_, e_))
+    for a, d in enumerate(decode):
+        if d and not any(s_ <= a < e_ for (s_, e_) in listed.get(d[0], [])):
+            bad(f"address {a}", f"decode_address({a}) gives resource {d[0]}, which all_resources() "
+                                f"{'lists at %s' % listed[d[0]] if d[0] in listed else 'does not list'}")
+            break
     for (a, we, t0, t1, acked, rdat, wd) in aux["transfers"]:
         if len(out) > 10:
             break
